@@ -1026,6 +1026,46 @@ def r11_resume_label_abandons_active_calls(ctx, rule="C05.R11"):
     ctx.decide(ok, rule, rule + ":drops:contexts", one.loc, "a Context routine pops states until the main module's is on top",
                "the ResumeLabel arm pops one context (the handler's) and nothing that pops contexts in a loop: after "
                "`RESUME label` out of a SUB the main module reads and writes the SUB's variables")
+    # the depths the other stacks are cut back to are those the OUTERMOST active call recorded: every
+    # active call is over, so what the outer calls parked or left pending goes too.  Taken from the
+    # innermost record (last / pop), the GOSUB addresses and parked values of the outer calls survive and a
+    # later RETURN of the main module jumps into an abandoned SUB
+    fns = [(one, region)]
+    for _b, t in mir.region_calls(one.body, region):
+        g = prog.fns.get(t.get("res") or mir.callee_of(t))
+        if g is not None and g.file == one.file and g.body is not None and g.id != one.id:
+            fns.append((g, [b2 for b2 in range(g.body.nblocks) if not g.body.is_cleanup(b2)]))
+    n_cut = 0
+    for g, reg in fns:
+        pv = mir.Prov(g.body)
+        for b, t in mir.region_calls(g.body, reg):
+            if mir.callee_path(t).split("::")[-1] != "truncate" or len(t["args"]) < 2:
+                continue
+            o = pv.of_operand(t["args"][1])
+            if not mir.origin_mentions(o, lambda x: x[0] == "field" and x[2] == "return_address_stack"):
+                continue
+            recv = mir.strip_refs(pv.of_operand(t["args"][0]))
+            fld = recv[2] if recv[0] == "field" else "?"
+            how = set()
+            mir.origin_mentions(o, lambda x: how.add(x[1].split("::")[-1]) if x[0] == "call" else None)
+            inner = how & {"last", "pop", "last_mut", "pop_back", "next_back", "rev", "max", "back"}
+            outer = how & {"first", "front", "first_mut"}
+            if mir.origin_mentions(o, lambda x: x[0] == "index"):
+                outer = outer | {"[..]"}
+            n_cut += 1
+            if inner:
+                ctx.violation(rule, "%s:cut-to-outermost-call:%s" % (rule, fld), "%s:%s" % (g.file, t.get("ln")),
+                              "RESUME label cuts %s back to the depth recorded by the innermost active call (%s of "
+                              "return_address_stack): what the outer active calls left pending survives - a GOSUB address of an "
+                              "outer SUB is then taken by a RETURN of the main module, which jumps into the abandoned SUB"
+                              % (fld, "/".join(sorted(inner))))
+            elif outer:
+                ctx.ok(rule, "%s:cut-to-outermost-call:%s" % (rule, fld), "%s:%s" % (g.file, t.get("ln")),
+                       "depth taken from the first (outermost) return-address record")
+            else:
+                ctx.unknown(rule, "%s:cut-to-outermost-call:%s" % (rule, fld), "%s:%s" % (g.file, t.get("ln")),
+                            "which return-address record the depth comes from is not recognised (%s)" % sorted(how))
+    ctx.analysed_units(rule, stacks_cut_back=n_cut)
     ctx.require(rule, 3)
 
 
